@@ -496,6 +496,67 @@ def dot_doc_oracle(tree, st, typed, o, lines):
             return f"dot-doc-edges: {tag}: line {ln!r} has attributes {got}, expected {want}"
     return None
 
+
+# ---------------------------------------------------------------------------
+# export -> mutation -> export again: the tree object is exported (every format, every start), then mutated by ONE
+# public mutator, then exported again; only the last export is compared (with the model of the tree as it is then).
+# A desc carries `mid` = [OP*]; a full warm-up export precedes every OP.  Node arguments are pre-order indices modulo
+# the current node count; an operation the library refuses is skipped.  OP = any op of build.apply_post, or
+#   ["clear"] | ["remove_children_root"] | ["filter", mod, k]   (in place; keeps pre-order indices i with i % mod != k)
+#   | ["set_data", i, label, with_clones] | ["set_id", i, data_id] | ["rename", i, new_name]
+#   | ["copy_in", i, j|null, deep]    (node i of a second tree with the same content is copied below node j / the tree)
+#   | ["copy_self", i, j|null, deep]  (node i is copied below node j / to the top level of its own tree)
+#   | ["add_tree", j|null]            (the whole second tree is copied below node j / the tree)
+# ---------------------------------------------------------------------------
+MID_OPS = [
+    ["clear"], ["remove_children_root"], ["filter", 2, 0], ["filter", 2, 1], ["filter", 1, 0], ["remove", 0], ["remove", 1],
+    ["remove_keep", 0], ["remove_children", 0], ["set_data", 1, 5, True], ["set_data", 0, 6, None], ["set_id", 1, "zz"],
+    ["set_id", 0, 0], ["rename", 0, "renamed"], ["rename", 2, ""], ["move", 2, None, None], ["move", 1, 2, 0], ["move", 0, None, True],
+    ["sort", 0, 1], ["sort_root", 1], ["add", -1, 7, "k", None], ["add", 1, 7, "m", 0], ["copy_in", 0, None, True],
+    ["copy_in", 1, 2, False], ["copy_self", 1, None, True], ["copy_self", 2, 0, False], ["add_tree", None], ["add_tree", 1],
+]
+
+
+def apply_mid(tree, U, op, typed, desc):
+    nodes = B.all_nodes(tree._root)
+    k = op[0]
+    try:
+        if k == "clear":
+            tree.clear()
+        elif k == "remove_children_root":
+            tree.system_root.remove_children()
+        elif k == "sort_root":
+            tree.sort(reverse=bool(op[1]))
+        elif k == "filter":
+            keep = {id(n) for i, n in enumerate(nodes) if i % op[1] != op[2]}
+            tree.filter(lambda n: id(n) in keep)
+        elif k in ("copy_in", "add_tree"):
+            donor = B.new_tree(desc, name="D")
+            B.add_nodes(donor._root, desc["nodes"], U, typed)
+            dn = B.all_nodes(donor._root)
+            j = op[2] if k == "copy_in" else op[1]
+            target = tree if j is None or not nodes else nodes[j % len(nodes)]
+            if k == "add_tree":
+                donor.copy_to(target, deep=True)
+            elif dn:
+                dn[op[1] % len(dn)].copy_to(target, deep=bool(op[3]))
+        elif not nodes:
+            if k == "add":
+                B.apply_post(tree, U, [op], typed)
+        elif k == "set_data":
+            nodes[op[1] % len(nodes)].set_data(U.objs[op[2] % len(U.objs)], with_clones=op[3])
+        elif k == "set_id":
+            nodes[op[1] % len(nodes)].set_data(None, data_id=op[2], with_clones=True)
+        elif k == "rename":
+            nodes[op[1] % len(nodes)].rename(op[2])
+        elif k == "copy_self":
+            target = tree if op[2] is None else nodes[op[2] % len(nodes)]
+            nodes[op[1] % len(nodes)].copy_to(target, deep=bool(op[3]))
+        else:
+            B.apply_post(tree, U, [op], typed)
+    except Exception:  # noqa: BLE001  (refused / invalid for this tree: skipped)
+        pass
+
 # ---------------------------------------------------------------------------
 class Prop:
     id = "C17"
@@ -514,7 +575,12 @@ class Prop:
             "(small trees) or 3 sampled nodes (random trees) as start x DOT/Mermaid structure (unique_nodes x "
             "add_self/add_root) and RDF (add_self on/off; tree); plus 2-3 whole Mermaid charts (markdown, direction, "
             "title, headers, string node/edge templates incl. malformed ones) and 1-2 whole DOT documents (graph/node/edge "
-            "attribute dicts, attribute-setting mappers) compared line by line.  A case is one tree with its request "
+            "attribute dicts, attribute-setting mappers) compared line by line; plus the family export -> mutation -> export "
+            "again on ONE tree object (every export, then one of 28 public mutator calls - clear, remove_children on the "
+            "root, in-place filter, remove / remove(keep_children) / remove_children, set_data (data, data_id), rename, "
+            "move_to, sort, add, copy_to from a second tree / within the tree, Tree.copy_to into it - then every export "
+            "again, compared with the model of the tree as it is then, the empty tree included; random histories of 2-3 "
+            "mutators with a full export before each).  A case is one tree with its request "
             "lists; distinct = distinct (nodes, typed, starts, charts, docs); non-trivial = the tree has >= 2 nodes")
     exhaustive_note = ("all shapes <= N nodes x 6 label patterns, every start node (N=4 quick, 5 thorough); plain and typed "
                        "both for <= 3 nodes, alternating above")
@@ -629,6 +695,7 @@ class Prop:
                         docs = [[ci % 2, DOT_OPTS[ci % len(DOT_OPTS)]], [(ci + 1) % 2, DOT_OPTS[(ci // 3 + 2) % len(DOT_OPTS)]]][:2 if n <= 3 else 1]
                         rdf_skip = [k for k in range(1, n + 1) if (k + ci) % 3 == 0]
                         yield dict(typed=typed, univ=univ, nodes=nodes, starts="all", charts=charts, docs=docs, rdf_skip=rdf_skip)
+        yield from self.mid_descs(tier, rng)
         nrand = 40 if tier == "quick" else 400
         for _ in range(nrand):
             n = rng.randint(5, 12)
@@ -655,7 +722,31 @@ class Prop:
             rdf_skip = sorted(rng.sample(range(1, n + 1), rng.randint(0, min(4, n))))
             yield dict(typed=typed, univ=univ, nodes=nodes, starts=[0] + starts, charts=charts, docs=docs, rdf_skip=rdf_skip)
 
+    def mid_descs(self, tier, rng):
+        """export -> one mutator -> export again: every mutator on a few small trees (plain and typed, with clones and
+        falsy ids), then random histories of 2-3 mutators with an export before each"""
+        strs = [f"s:{c}" for c in "abcdefghij"]
+        bases = [
+            dict(typed=False, univ=strs, nodes=[[0, None, None, [[1, None, None, [[0, None, None, []]]], [2, None, None, []]]], [3, None, None, []]]),
+            dict(typed=True, univ=strs, nodes=[[0, "k", None, [[1, "m", None, []], [2, "k", None, [[1, "k", None, []]]]]], [3, "m", None, []]]),
+            dict(typed=False, univ=[f"i:{v}" for v in range(10)], nodes=[[0, None, None, [[1, None, None, []]]], [2, None, "", [[3, None, None, []]]]]),
+        ]
+        chart = [[0, CHART_OPTS[0]], [1, CHART_OPTS[1]]]
+        doc = [[0, DOT_OPTS[0]], [1, DOT_OPTS[2]]]
+        for bi, b in enumerate(bases if tier != "quick" else bases[:2]):
+            for oi, op in enumerate(MID_OPS):
+                if tier == "quick" and bi == 1 and oi % 2 == 1 and op[0] not in ("clear", "remove_children_root"):
+                    continue
+                yield dict(b, starts="all", charts=chart[:1 + (oi % 2)], docs=doc[oi % 2:oi % 2 + 1], rdf_skip=[2], mid=[op])
+        for _ in range(12 if tier == "quick" else 150):
+            b = rng.choice(bases)
+            mid = [rng.choice(MID_OPS) for _ in range(rng.randint(2, 3))]
+            yield dict(b, starts="all", charts=chart[:1], docs=doc[:1], rdf_skip=[], mid=mid)
+
     def shrink_candidates(self, desc):
+        if len(desc.get("mid", [])) > 1:
+            for k in range(len(desc["mid"])):
+                yield dict(desc, mid=desc["mid"][:k] + desc["mid"][k + 1:])
         for nodes in B.drop_one_node(desc["nodes"]):
             yield dict(desc, nodes=nodes, starts="all", charts=[[min(i, 1), o] for i, o in desc.get("charts", [])],
                        docs=[[min(i, 1), o] for i, o in desc.get("docs", [])],
@@ -670,8 +761,11 @@ class Prop:
     # ----- one case
     def run(self, desc) -> Case:
         tree, U = B.build(desc)
-        nodes = B.all_nodes(tree._root)
         typed = bool(desc.get("typed"))
+        for op in desc.get("mid", []):
+            self.warm_up(tree, desc)          # export everything (result discarded), then mutate, then export again
+            apply_mid(tree, U, op, typed, desc)
+        nodes = B.all_nodes(tree._root)
         if desc["starts"] == "all":
             starts = [None] + nodes
         else:
@@ -713,17 +807,45 @@ class Prop:
                     fail = f"{fail} [start={i}]"
         obs = [obs, chart_obs, doc_obs]
         coq = (f"({H.coq_rt(tree._root, U)}, {H.coq_list(H.z(0 if s is None else H.nid(s)) for s in starts)}, "
-               f"{H.coq_list(chart_terms)}, {H.coq_list(doc_terms)}, {H.coq_list(H.z(i) for i in sorted(skip))})")
+               f"({H.coq_list(chart_terms)} : list (Z * mopts)), ({H.coq_list(doc_terms)} : list (Z * dopts)), "
+               f"({H.coq_list(H.z(i) for i in sorted(skip))} : list Z))")
         dids = Counter((type(n._data_id).__name__, n._data_id) for n in nodes)
         anc_clone = any(_has_desc_clone(n) for n in nodes)
         return Case(desc=desc, coq_input=coq, impl_obs=obs, oracle_fail=fail,
                     nontrivial=len(nodes) >= 2,
-                    key=H.digest([desc["nodes"], typed, desc["starts"], desc.get("charts"), desc.get("docs"), desc.get("rdf_skip")]),
+                    key=H.digest([desc["nodes"], typed, desc["starts"], desc.get("charts"), desc.get("docs"), desc.get("rdf_skip"), desc.get("post"), desc.get("mid")]),
                     stats=dict(nodes=len(nodes), starts=len(starts), charts=len(chart_obs), docs=len(doc_obs), rdf_mapper_false=len(skip),
+                               re_export_after=",".join(op[0] for op in desc.get("mid", [])) or "-",
                                chart_errors=sum(1 for c in chart_obs if c == -1),
                                clones=sum(1 for v in dids.values() if v > 1),
                                start_clone_below=anc_clone, typed=typed,
                                falsy_ids=sum(1 for n in nodes if not n._data_id)))
+
+    def warm_up(self, tree, desc):
+        """every export the case is going to observe, on the tree as it is now; results and errors are discarded"""
+        nodes = B.all_nodes(tree._root)
+        try:
+            kt = KeyTable(tree)
+        except ParseError:
+            return
+        skip = frozenset(H.nid(nodes[i - 1]) for i in desc.get("rdf_skip", []) if 1 <= i <= len(nodes))
+        for st in [None] + nodes:
+            try:
+                self.observe(tree, st, kt, skip)
+            except Exception:  # noqa: BLE001
+                pass
+        for i, o in desc.get("charts", []):
+            if i <= len(nodes):
+                try:
+                    chart_lines(tree, None if i == 0 else nodes[i - 1], o)
+                except Exception:  # noqa: BLE001
+                    pass
+        for i, o in desc.get("docs", []):
+            if i <= len(nodes):
+                try:
+                    dot_doc_lines(tree, None if i == 0 else nodes[i - 1], o, kt)
+                except Exception:  # noqa: BLE001
+                    pass
 
     # ----- observe the implementation: native structures (or ("ERR", cls))
     def observe(self, tree, st, kt, skip=frozenset()):
